@@ -56,25 +56,25 @@ def Carried (cs : CharSpec) (evs : Array (Ev α)) (p q : Nat) : Prop :=
   ∃ ev ∈ evs.toList, ev.carries cs p q
 
 /-- the queue contains an `Error` event -/
-def HasErr (evs : Array (Ev α)) : Prop := ∃ d, Ev.error d ∈ evs.toList
+def HasErrEv (evs : Array (Ev α)) : Prop := ∃ d, Ev.error d ∈ evs.toList
 
 theorem Carried.push {cs : CharSpec} {evs : Array (Ev α)} {p q : Nat} (h : Carried cs evs p q) (ev : Ev α) :
     Carried cs (evs.push ev) p q := by
   obtain ⟨e, he, hc⟩ := h
   exact ⟨e, by simp [he], hc⟩
 
-theorem HasErr.push {evs : Array (Ev α)} (h : HasErr evs) (ev : Ev α) : HasErr (evs.push ev) := by
+theorem HasErrEv.push {evs : Array (Ev α)} (h : HasErrEv evs) (ev : Ev α) : HasErrEv (evs.push ev) := by
   obtain ⟨d, hd⟩ := h
   exact ⟨d, by simp [hd]⟩
 
-theorem HasErr.pushed (evs : Array (Ev α)) (d : Diag) : HasErr (evs.push (.error d)) := ⟨d, by simp⟩
+theorem HasErrEv.pushed (evs : Array (Ev α)) (d : Diag) : HasErrEv (evs.push (.error d)) := ⟨d, by simp⟩
 
 /-! ### queue predicates kept by every push -/
 
 /-- a predicate on the event queue that survives every push -/
 def UpP (Pv : Array (Ev α) → Prop) : Prop := ∀ evs ev, Pv evs → Pv (evs.push ev)
 
-theorem UpP.andErr {Pv : Array (Ev α) → Prop} (h : UpP Pv) : UpP (fun evs => Pv evs ∧ HasErr evs) :=
+theorem UpP.andErr {Pv : Array (Ev α) → Prop} (h : UpP Pv) : UpP (fun evs => Pv evs ∧ HasErrEv evs) :=
   fun evs ev ⟨h1, h2⟩ => ⟨h evs ev h1, h2.push ev⟩
 
 theorem upCtx {off : Nat} {w : List Char} {Pv : Array (Ev α) → Prop} {ts : List Tok} (hw : WFI off w ts)
@@ -84,7 +84,7 @@ theorem upCtx {off : Nat} {w : List Char} {Pv : Array (Ev α) → Prop} {ts : Li
 variable {off : Nat} {w : List Char} {Pv : Array (Ev α) → Prop} {ts : List Tok} {e : Ext} {s : BP α}
 
 /-- after an `Error` was pushed the invariant can be strengthened by "the queue has an error" -/
-theorem GE.withErr (h : GE Pv ts e s) (he : HasErr s.evs) : GE (fun evs => Pv evs ∧ HasErr evs) ts e s :=
+theorem GE.withErr (h : GE Pv ts e s) (he : HasErrEv s.evs) : GE (fun evs => Pv evs ∧ HasErrEv evs) ts e s :=
   ⟨h.g, h.evs, he⟩
 
 theorem GE.pushUp (hup : UpP Pv) (h : GE Pv ts e s) (ev : Ev α) :
@@ -92,8 +92,8 @@ theorem GE.pushUp (hup : UpP Pv) (h : GE Pv ts e s) (ev : Ev α) :
 
 /-- pushing an error: the invariant, strengthened -/
 theorem GE.pushErr (hup : UpP Pv) (h : GE Pv ts e s) (d : Diag) :
-    GE (fun evs => Pv evs ∧ HasErr evs) ts e { s with evs := s.evs.push (.error d) } :=
-  ⟨h.g.setEvs _, hup _ _ h.evs, HasErr.pushed _ _⟩
+    GE (fun evs => Pv evs ∧ HasErrEv evs) ts e { s with evs := s.evs.push (.error d) } :=
+  ⟨h.g.setEvs _, hup _ _ h.evs, HasErrEv.pushed _ _⟩
 
 /-! ### the extension flags the parsers read (for "the character tables are kept") -/
 
@@ -116,13 +116,13 @@ theorem Sat.fragCs {β : Type} {m : P α β} {s : BP α} {Q : β → BP α → P
     character that is not white space) of kind word, number, punctuation or escape.  The remaining kinds
     are the one-character markers of the syntax (`@ # ~ { } ( ) | % = : …`), `>>`, `>`, white space,
     line breaks and comments. -/
-def Core (cs : CharSpec) (t : Tok) : Prop :=
+def CoreTok (cs : CharSpec) (t : Tok) : Prop :=
   Wordy cs t ∧ (t.kind = .word ∨ t.kind = .int ∨ t.kind = .zeroInt ∨ t.kind = .punct ∨ t.kind = .escaped)
 
-theorem Core.hasBody {cs : CharSpec} {t : Tok} {l : List Tok} (h : Core cs t) (he : EscapedOK l) (ht : t ∈ l) :
+theorem CoreTok.hasBody {cs : CharSpec} {t : Tok} {l : List Tok} (h : CoreTok cs t) (he : EscapedOK l) (ht : t ∈ l) :
     HasBody t := h.1.hasBody (he t ht)
 
-theorem Core.kindNe {cs : CharSpec} {t : Tok} (h : Core cs t) {k : TK}
+theorem CoreTok.kindNe {cs : CharSpec} {t : Tok} (h : CoreTok cs t) {k : TK}
     (hk : k ≠ .word ∧ k ≠ .int ∧ k ≠ .zeroInt ∧ k ≠ .punct ∧ k ≠ .escaped) : t.kind ≠ k := by
   intro e
   obtain ⟨k1, k2, k3, k4, k5⟩ := hk
@@ -135,7 +135,7 @@ theorem frag_run {o : Nat} {l : List Tok} (hr : RunAt o l) {u : Tok} (hu : u ∈
   exact ⟨f, hf, h1, h2⟩
 
 /-- a text that holds a content token is not blank -/
-theorem frag_run_not_empty {cs : CharSpec} {o : Nat} {l : List Tok} {u : Tok} (hu : u ∈ l) (hc : Core cs u) :
+theorem frag_run_not_empty {cs : CharSpec} {o : Nat} {l : List Tok} {u : Tok} (hu : u ∈ l) (hc : CoreTok cs u) :
     (buildText o l).isTextEmpty cs = false :=
   buildText_not_empty_vis _ _ ⟨u, hu, hc.1.2.1, hc.1.1⟩
 
